@@ -6,6 +6,7 @@ allparts = []
 for p in sys.argv[5:]:
     d = json.load(open(p))
     d["configuration"] = re.sub(r"^C17-|(-sys)?\.json$", "", os.path.basename(p))
+    d["cold"] = d["configuration"].endswith("-cold")
     allparts.append(d)
 parts = [p for p in allparts if p.get("source", "rnd") != "sys"]
 sysparts = [p for p in allparts if p.get("source") == "sys"]
